@@ -5,7 +5,9 @@
 (* (payload type), and the identity of the remote track.  write lines precede    *)
 (* the arrival of the same packet (the write is logged before the next one is    *)
 (* sent, arrival takes a network round), but to be independent of that the       *)
-(* packets are judged at `end`.                                                  *)
+(* packets are judged at `end`.  rtp lines carry rtx = the packet came over the  *)
+(* repair stream (Media!Retransmit: the receiver NACKed packets it already had); *)
+(* such a copy is judged like any arrival: same sequence number, same payload.   *)
 EXTENDS TraceKit
 
 VARIABLES pos, viol, cnt, wrote, recvd
@@ -16,6 +18,8 @@ Preds(e) ==
    P("C23", "SomethingArrived", en /\ e.written >= 10, e.got >= 1),
    P("C23", "OnlyWhatWasWritten", en, \A r \in recvd : \E w \in wrote : w[1] = r[1]),
    P("C23", "PayloadUnchanged", en, \A r \in recvd : \A w \in wrote : w[1] = r[1] => (w[2] = r[2] /\ w[3] = r[3])),
+   \* what TrackRemote.ReadRTP could not parse is something that arrived and was not written
+   P("C23", "OnlyWhatWasWritten", e.ev = "readerr", FALSE),
    P("C23", "SsrcAnnounced", en /\ recvd # {}, \A r \in recvd : r[5] \in SetOf(e.announced)),
    P("C23", "PayloadTypeNegotiated", en /\ recvd # {}, \A r \in recvd : r[4] = e.pt),
    P("C23", "TrackIdentity", en /\ e.haveRemote,
